@@ -254,7 +254,7 @@ def run_e1(prop, tier, seed, tasks=None, fn="vf.e1:run_task", level_note=None):
             last[0] = time.time()
             print(f"[{prop}] {done}/{total} done, {time.time()-t0:.0f}s", flush=True)
 
-    results = pool.run_tasks(fn, tasks, workers=min(15, os.cpu_count() or 2), task_timeout=60 if tier == "quick" else 900, progress=progress)
+    results = pool.run_tasks(fn, tasks, workers=min(15, os.cpu_count() or 2), task_timeout=60 if tier == "quick" else 300, progress=progress)
     st, harness = selftest(prop, tier, seed, results)
     return finish_e1(prop, tier, seed, tasks, results, known, t0, extra_cov={"encoder_selftest": st}, extra_harness=harness)
 
